@@ -85,7 +85,7 @@ func main() {
 			os.Exit(2)
 		}
 		for _, e := range ents {
-			if strings.HasSuffix(e.Name(), ".go") {
+			if strings.HasSuffix(e.Name(), ".go") || strings.HasSuffix(e.Name(), ".s") {
 				overlay[filepath.Join(*repo, "pkg/verifshim", pkg, e.Name())] = filepath.Join(*shim, pkg, e.Name())
 			}
 		}
@@ -202,8 +202,60 @@ func rewrite(path string, rep *report) ([]byte, bool, error) {
 				x.Call = sched("Close", x.Call.Args[0])
 			}
 		case *ast.SelectStmt:
+			// The communications of the cases stay real channel operations (visit skips them). The statement becomes
+			//	{ vsSelN: vsched.SelectEnter(); select { <cases>; default: vsched.SelectIdle(); goto vsSelN } }
+			// : a scheduling point before every attempt, and a select that found nothing ready waits (visibly to the
+			// scheduler) until some other thread has made progress. No loop is introduced, so break / continue in the
+			// case bodies keep their meaning. A select with a default clause only gets the scheduling point.
 			rep.Selects++
-			rep.Unsupported = append(rep.Unsupported, fmt.Sprintf("%s: select statement (its blocking is invisible to the scheduler)", fset.Position(x.Pos())))
+			changed = true
+			hasDefault := false
+			// opaque: some case waits for a channel handed out by a call (ctx.Done(), time.After(..)): it may become
+			// ready through code the scheduler does not see, so the wait is re-examined after every step of another
+			// thread; otherwise only after channel operations
+			opaque := false
+			for _, c := range x.Body.List {
+				cc, ok := c.(*ast.CommClause)
+				if !ok {
+					continue
+				}
+				if cc.Comm == nil {
+					hasDefault = true
+					continue
+				}
+				var ch ast.Expr
+				switch s := cc.Comm.(type) {
+				case *ast.SendStmt:
+					ch = s.Chan
+				case *ast.ExprStmt:
+					ch = s.X
+				case *ast.AssignStmt:
+					if len(s.Rhs) == 1 {
+						ch = s.Rhs[0]
+					}
+				}
+				if ch == nil {
+					opaque = true
+					continue
+				}
+				ast.Inspect(ch, func(n ast.Node) bool {
+					if _, ok := n.(*ast.CallExpr); ok {
+						opaque = true
+					}
+					return true
+				})
+			}
+			enter := &ast.ExprStmt{X: sched("SelectEnter")}
+			if hasDefault {
+				return &ast.BlockStmt{List: []ast.Stmt{enter, x}}
+			}
+			counter++
+			label := ast.NewIdent(fmt.Sprintf("vsSel%d", counter))
+			x.Body.List = append(x.Body.List, &ast.CommClause{Body: []ast.Stmt{
+				&ast.ExprStmt{X: sched("SelectIdle", ast.NewIdent(strconv.FormatBool(opaque)))},
+				&ast.BranchStmt{Tok: token.GOTO, Label: ast.NewIdent(label.Name)},
+			}})
+			return &ast.BlockStmt{List: []ast.Stmt{&ast.LabeledStmt{Label: label, Stmt: enter}, x}}
 		case *ast.RangeStmt:
 			// ranging over a channel blocks invisibly; flagged, not rewritten
 		}
@@ -223,6 +275,11 @@ func rewrite(path string, rep *report) ([]byte, bool, error) {
 				replaceSlot(el, exprType, stmtType, rewriteExpr, rewriteStmt)
 			}
 		case reflect.Struct:
+			// the communication of a select case stays a real channel operation (see the SelectStmt rewrite)
+			if cc, ok := v.Addr().Interface().(*ast.CommClause); ok {
+				visit(reflect.ValueOf(&cc.Body).Elem())
+				return
+			}
 			// v, ok := <-c  must become Recv2 before the generic receive rewrite sees it
 			if as, ok := v.Addr().Interface().(*ast.AssignStmt); ok && len(as.Lhs) == 2 && len(as.Rhs) == 1 {
 				if u, ok := as.Rhs[0].(*ast.UnaryExpr); ok && u.Op == token.ARROW {
